@@ -200,9 +200,9 @@ func main() {
 		j := c.Rng.Intn(i + 1)
 		files[i], files[j] = files[j], files[i]
 	}
-	nCorpus, nGen, nDirect := 60, 90, 120
+	nCorpus, nGen, nDirect := 50, 70, 100
 	if c.Thorough() {
-		nCorpus, nGen, nDirect = len(files), 1200, 2500
+		nCorpus, nGen, nDirect = len(files), 800, 1500
 	}
 	if c.Search {
 		nGen, nDirect = nGen*3, nDirect*3
